@@ -25,7 +25,8 @@ ASSUMPTIONS = [
 ]
 TIMEOUT = {"quick": 1800, "thorough": 5400}
 MIN_COUNTERS = {"quick": {"system_evaluations": 60, "non_square_systems": 10, "dict_weight_systems": 10,
-                          "one_by_one_systems": 4, "nonstatio_systems": 15,
+                          "one_by_one_systems": 4, "nonstatio_systems": 15, "mixed_stationary_nonstationary_systems": 6,
+                          "boundary_terms_restricted_to_a_component_nonstatio": 3, "boundary_terms_restricted_to_a_component_statio": 3,
                           "systems_with_a_heterogeneous_parameter": 12},
                 "thorough": {"system_evaluations": 800, "non_square_systems": 150, "dict_weight_systems": 150,
                              "one_by_one_systems": 50, "nonstatio_systems": 200,
@@ -56,7 +57,16 @@ def gen_cases(tier, seed):
             names = [NAMES[i] for i in rng.permutation(len(NAMES))[:U]]
             non_obs = [p for p in avail if p != "obs"]
             per_u = {n: ([non_obs[(k + i) % len(non_obs)]] if i % 2 == 0 else []) for i, n in enumerate(names)}
-        cases.append(dict(kind=kind, d=0 if kind == "ode" else int(rng.integers(1, 3)), E=E, U=U, names=names,
+        force_bdim = False
+        if kind != "ode" and k % 5 == 2 and k % 9 not in (3, 4, 5):
+            # guaranteed presence of a boundary condition restricted to one component of a two-output unknown (the
+            # second unknown has two outputs unless it carries a normalisation part)
+            U = max(U, 2)
+            names = (names + [n_ for n_ in NAMES if n_ not in names])[:U]
+            per_u = {n: per_u.get(n, []) for n in names}
+            per_u[names[1]] = ["boundary"] + [p for p in per_u[names[1]] if p in ("ic", "obs")]
+            force_bdim = True
+        cases.append(dict(kind=kind, force_bdim=force_bdim, d=0 if kind == "ode" else int(rng.integers(1, 3)), E=E, U=U, names=names,
                           eqnames=eqn, per_u=per_u, weights=["scalar", "dict", "default"][int(rng.integers(3))],
                           obs_src=["hand", "multi"][int(rng.integers(2))], B=int(rng.integers(1, 7)),
                           seed=seed * 100000 + k, cost=2.0, x64=bool(k % 7 != 3), hetero=bool(k % 4 == 2), warr=[0, 1, 0, 2][k % 4]))
@@ -64,6 +74,10 @@ def gen_cases(tier, seed):
     for k in range(10 if q else 100):
         cases.append(dict(kind="ns_system", net=["pinn", "spinn"][k % 2], weights=["scalar", "dict"][(k // 2) % 2],
                           B=int(rng.integers(2, 5)), seed=seed * 100000 + 70000 + k, cost=3.0))
+    # a system mixing a stationary unknown (a coefficient field k(x)) with a non-stationary one (u(t,x))
+    for k in range(8 if q else 80):
+        cases.append(dict(kind="mixed_system", d=1 + k % 2, first=["k", "u"][(k // 2) % 2], obs=bool((k // 4) % 2),
+                          B=int(rng.integers(2, 7)), seed=seed * 100000 + 80000 + k, cost=2.0))
     return cases
 
 
@@ -117,6 +131,8 @@ class SystemProblem:
         for n in self.names:
             no = self.nets[n].n_out
             self.bdim[n] = None if (no == 1 or rng.integers(3) == 0) else [[0, 1], [1, 2]][int(rng.integers(2))]
+            if case.get("force_bdim") and no > 1 and self.bdim[n] is None:
+                self.bdim[n] = [[0, 1], [1, 2]][case["seed"] % 2]
         self.t0 = 0.25
         self.u0 = {n: rng.uniform(-1, 1, self.nets[n].n_out) for n in self.names}
         self.fb = {n: float(rng.uniform(-0.5, 0.5)) for n in self.names}
@@ -393,6 +409,85 @@ def run_ns_system(case, rec, rng):
         rec.violation("system-pde/total-not-sum", "total != sum of terms")
 
 
+def run_mixed_system(case, rec, rng):
+    """SystemLossPDE over a stationary unknown k(x) and a non-stationary unknown u(t,x), one equation
+    du/dt - D k(x) lap_x u, an initial condition (and optionally observations) for u only; the two orders in which the
+    unknowns can be listed.  Expected terms from the numpy twins of the analytic networks."""
+    import jax
+    import jax.numpy as jnp
+    import jinns
+    from jinns.parameters import ParamsDict
+
+    J = lambda v: jnp.asarray(v, dtype=float)
+    d, B = case["d"], case["B"]
+    rec.count("system_evaluations")
+    rec.count("mixed_stationary_nonstationary_systems")
+    fk = fields.TrigField(case["seed"], d, 1)
+    fu = fields.TrigField(case["seed"] + 1, 1 + d, 1)
+    nk, nu_ = nets.Net(fk, "statio_PDE"), nets.Net(fu, "nonstatio_PDE")
+    nets_ = {"k": nk.pinn(), "u": nu_.pinn()}
+    order = ["k", "u"] if case["first"] == "k" else ["u", "k"]
+    udict = {n: nets_[n] for n in order}
+    D = float(rng.uniform(0.3, 1.5))
+    pd = ParamsDict(nn_params={"k": nk.nn_params(), "u": nu_.nn_params()}, eq_params={"D": J(D)})
+
+    class Hetero(jinns.loss.PDENonStatio):
+        def equation(self, t, x, u_dict, params_dict):
+            pu, pk = params_dict.extract_params("u"), params_dict.extract_params("k")
+            u = lambda t_, x_: u_dict["u"](t_, x_, pu)[0]
+            du_dt = jax.grad(u, 0)(t, x)[0]
+            lap = jnp.trace(jax.hessian(u, 1)(t, x))
+            return jnp.array([du_dt - params_dict.eq_params["D"] * u_dict["k"](x, pk)[0] * lap])
+
+    al, be = float(rng.uniform(-1, 1)), rng.uniform(-1, 1, d)
+    A_, B_ = J(al), J(be)
+    u0j = lambda x: jnp.array([A_ + B_ @ x])
+    wd, wi, wo = [float(np.round(v, 3)) for v in rng.uniform(0.4, 2.5, 3)]
+    lw = jinns.loss.LossWeightsPDEDict(dyn_loss=wd, initial_condition=wi, observations=wo)
+    try:
+        loss = guard.call(jinns.loss.SystemLossPDE, u_dict=udict, dynamic_loss_dict={"diff": Hetero()}, loss_weights=lw,
+                          initial_condition_fun_dict={n: (u0j if n == "u" else None) for n in order}, params_dict=pd)
+    except guard.Crash as c:
+        rec.violation("system-pde/mixed/%s-first/constructor-crash/%s" % (case["first"], c.etype),
+                      "system of a stationary and a non-stationary unknown: constructor crashed: %s" % c)
+        return
+    tx = np.concatenate([rng.uniform(0, 1, (B, 1)), rng.uniform(-0.5, 1.5, (B, d))], axis=1)
+    batch = jinns.data.PDENonStatioBatch(times_x_inside_batch=J(tx), times_x_border_batch=None)
+    ob = None
+    if case["obs"]:
+        no = 1 + case["seed"] % 4
+        ob = (rng.uniform(0, 1, (no, 1 + d)), rng.uniform(-1, 1, (no, 1)))
+        batch = jinns.data.append_obs_batch(batch, {"u": {"pinn_in": J(ob[0]), "val": J(ob[1]), "eq_params": {}}, "k": None})
+    try:
+        total, terms = guard.call(loss.evaluate, pd, batch)
+    except guard.Crash as c:
+        rec.violation("system-pde/mixed/%s-first/evaluate-crash/%s" % (case["first"], c.etype),
+                      "system of a stationary and a non-stationary unknown: evaluation crashed: %s" % c, obs=case["obs"])
+        return
+    res = []
+    for row in tx:
+        g_, H_ = fu.grad(row)[0], fu.hess(row)[0]
+        res.append(g_[0] - D * fk.val(row[1:])[0] * sum(H_[i, i] for i in range(1, 1 + d)))
+    exp = {"dyn_loss": wd * float(np.mean(np.square(res))),
+           "initial_condition": wi * float(np.mean([(al + be @ row[1:] - fu.val(np.concatenate([[0.0], row[1:]]))[0]) ** 2 for row in tx]))}
+    if ob is not None:
+        exp["observations"] = wo * float(np.mean([(fu.val(z)[0] - v[0]) ** 2 for z, v in zip(*ob)]))
+    rec.nontrivial(("mixed_system", d, case["first"], case["obs"], B, case["seed"]))
+    rec.set_sample(kind="mixed_system", d=d, first=case["first"], obs=case["obs"], B=B, expected=exp,
+                   got={k_: float(np.asarray(v).reshape(-1)[0]) for k_, v in terms.items()})
+    for t_, e_ in exp.items():
+        rec.count("terms_compared")
+        got = float(np.asarray(terms[t_]).reshape(-1)[0])
+        if not close(got, e_, 1e-8, 1e-10):
+            rec.violation("system-pde/mixed/%s-first/%s" % (case["first"], t_),
+                          "stationary k(x) + non-stationary u(t,x), unknowns listed %s: term %s = %r, expected %r"
+                          % (order, t_, got, e_), order=order)
+    tot_exp = sum(exp.values())
+    if not close(float(np.asarray(total).reshape(-1)[0]), tot_exp, 1e-8, 1e-10):
+        rec.violation("system-pde/mixed/%s-first/total" % case["first"],
+                      "total %r, expected %r (unknowns listed %s)" % (float(np.asarray(total).reshape(-1)[0]), tot_exp, order))
+
+
 def run_case(case, rec):
     import jax
     import jax.numpy as jnp
@@ -402,6 +497,8 @@ def run_case(case, rec):
     rng = np.random.default_rng([case["seed"], 13])
     if case["kind"] == "ns_system":
         return run_ns_system(case, rec, rng)
+    if case["kind"] == "mixed_system":
+        return run_mixed_system(case, rec, rng)
     sp = SystemProblem(case, rng)
     B = case["B"]
     sp.make_data(B)
@@ -416,6 +513,9 @@ def run_case(case, rec):
         rec.count("dict_weight_systems")
     if kind == "nonstatio":
         rec.count("nonstatio_systems")
+    for n_ in sp.names:
+        if "boundary" in sp.per_u[n_] and sp.bdim[n_] is not None:
+            rec.count("boundary_terms_restricted_to_a_component_%s" % kind)
     try:
         loss = guard.call(sp.loss)
     except guard.Unsupported as u:
